@@ -394,4 +394,147 @@ theorem readLoop_count (env : Env B H) (fuel : Nat) (L n : Nat) (rest : Bytes) (
     (by rw [hnl]; simpa using hf) (by rw [hnl]; simpa using hs)
   rw [this, hnl]; rfl
 
+
+/-- once the first batch has been read (from whatever state), the remaining batches follow -/
+theorem chain_from_first (env : Env B H) (attach : Message B H → Option Nat) (hat : AttachOK attach) (rest : Bytes)
+    (c : Codec H) (s : Bytes) (its : List (H × Bytes)) (p' : Nat) (hne : its ≠ [])
+    (hwf : ∀ it ∈ its, ItemWF env it) (h64 : its.length < 2^64)
+    (q1 : p' ≤ (itemBytes (its.drop 32)).length) (q2 : p' ≤ env.hdrMax)
+    (hr : ReadsTo env c s (.headers ((its.take 32).map (·.1)) (its.length - min 32 its.length))
+        (afterBatch (its.drop 32) p') ((itemBytes (its.drop 32)).drop p' ++ rest)) :
+    Chain env attach c s (batches its.length (its.map (·.1))) idle rest := by
+  have hnx := nextCodec_none (attach := attach) (afterBatch (its.drop 32) p') _
+    (hat.2.1 ((its.take 32).map (·.1)) (its.length - min 32 its.length))
+  have hie : (its.map (·.1)).isEmpty = false := by cases its <;> simp_all
+  obtain ⟨f, hf⟩ : ∃ f, its.length = f + 1 := by
+    cases its with
+    | nil => exact absurd rfl hne
+    | cons a t => exact ⟨t.length, rfl⟩
+  rw [hf]
+  simp only [batches, hie, HBS]
+  rw [← List.map_take, ← List.map_drop, List.length_map]
+  rw [show its.length - 32 = its.length - min 32 its.length by omega]
+  by_cases hd : its.drop 32 = []
+  · have hb : batches f ((its.drop 32).map (·.1)) = ([] : List (Message B H)) := by
+      rw [hd]; cases f <;> simp [batches]
+    rw [hb]
+    have ha : afterBatch (its.drop 32) p' = (idle : Codec H) := by simp [afterBatch, hd]
+    rw [ha] at hr hnx
+    rw [hd, itemBytes_nil, List.drop_nil, List.nil_append] at hr
+    simp only [Bool.false_eq_true, if_false]
+    exact Chain.single hr hnx
+  · have ha : afterBatch (its.drop 32) p' = hdrState (its.drop 32) [] p' := by
+      have : (its.drop 32).isEmpty = false := by
+        cases h : its.drop 32 with
+        | nil => exact absurd h hd
+        | cons a t => rfl
+      simp [afterBatch, this]
+    rw [ha] at hr hnx
+    have hl : (its.drop 32).length ≤ f := by rw [List.length_drop]; omega
+    have := chain_batches env attach hat rest f (its.drop 32) p' hl hd
+      (fun it hit => hwf it (List.mem_of_mem_drop hit)) (by rw [List.length_drop]; omega) q1 q2
+    simp only [Bool.false_eq_true, if_false]
+    exact Chain.cons hr hnx this
+
+theorem isKnown_headers : isKnownType T_Headers = true := by decide
+
+/-- a whole `Headers` message, from the idle codec -/
+theorem chain_headers (env : Env B H) (attach : Message B H → Option Nat) (hat : AttachOK attach) (rest : Bytes)
+    (items : List (H × Bytes)) (hwf : SentWF env attach (.headers items)) :
+    Chain env attach idle (encodeSent env.net (Sent.headers (B := B) items) ++ rest)
+      (expected (Sent.headers (B := B) items)) idle rest := by
+  obtain ⟨hne, hn16, hmax, h64, hit⟩ := hwf
+  have hbl : (headersBody items).length = 2 + (itemBytes items).length := by
+    simp [headersBody, itemBytes, writeU16]; omega
+  have hdec : decHeader env.net (encHeader env.net T_Headers (headersBody items).length) =
+      .ok (.known T_Headers (headersBody items).length) [] 0 := by
+    have := decHeader_encHeader env.net T_Headers (headersBody items).length h64 []
+    rw [List.append_nil] at this
+    rw [this, if_neg (by omega), if_pos isKnown_headers]
+  have hstream : encodeSent env.net (Sent.headers (B := B) items) ++ rest =
+      encHeader env.net T_Headers (headersBody items).length ++ (writeU16 items.length ++ (itemBytes items ++ rest)) := by
+    simp [encodeSent, writeMessage, headersBody, itemBytes]
+  have e1 := readLoop_header_ok env (34 + 1) (encHeader env.net T_Headers (headersBody items).length)
+    (writeU16 items.length ++ (itemBytes items ++ rest)) (encHeader_length _ _ _) 0 0 _ _ _ hdec
+  have e2 := readLoop_count env 34 (headersBody items).length items.length (itemBytes items ++ rest)
+    (by omega) hn16 (0 + 11) (0 + 11 + 0)
+  have hst : ({ buffer := [], state := .blockHeaders ((headersBody items).length - 2) items.length [] } : Codec H) =
+      hdrState items [] 0 := by
+    simp only [hdrState, List.take_zero]
+    rw [show (headersBody items).length - 2 = (itemBytes items).length by omega]
+  obtain ⟨p', br', al', q1, q2, q3⟩ := readLoop_items env rest items 34 [] 0 (0 + 11 + 2)
+    (0 + 11 + 0 + 2 + min HEADER_BATCH_SIZE items.length * env.hdrMem) hit hne (by omega) (by simp)
+    (Nat.zero_le _) (Nat.zero_le _) (by simp)
+  simp only [List.length_nil, Nat.sub_zero, List.nil_append, List.drop_zero] at q1 q3
+  rw [take_min_length, drop_min_length] at q3
+  rw [drop_min_length] at q1
+  have hr : ReadsTo env idle (encodeSent env.net (Sent.headers (B := B) items) ++ rest)
+      (.headers ((items.take 32).map (·.1)) (items.length - min 32 items.length))
+      (afterBatch (items.drop 32) p') ((itemBytes (items.drop 32)).drop p' ++ rest) := by
+    unfold ReadsTo read
+    rw [READ_FUEL_eq, hstream, e1, e2, hst, q3]
+    exact ⟨rfl, rfl, rfl⟩
+  have := chain_from_first env attach hat rest idle _ items p' hne hit (by omega) q1 q2 hr
+  simpa [expected] using this
+
+
+/-- every well-formed sent message is read back as exactly its expected events, and leaves the codec idle -/
+theorem chain_sent (env : Env B H) (attach : Message B H → Option Nat) (hat : AttachOK attach) (rest : Bytes)
+    (m : Sent B H) (hwf : SentWF env attach m) :
+    Chain env attach idle (encodeSent env.net m ++ rest) (expected m) idle rest := by
+  cases m with
+  | plain t v raw =>
+    obtain ⟨hd, hl, h64, hb, ha⟩ := hwf
+    have hr := reads_plain env t v raw rest hd hl h64 hb
+    have hs : encodeSent env.net (Sent.plain (H := H) t v raw) ++ rest =
+        encHeader env.net t raw.length ++ (raw ++ rest) := by simp [encodeSent, writeMessage]
+    rw [hs]
+    exact Chain.single hr (nextCodec_none idle _ ha)
+  | unknown t raw =>
+    obtain ⟨hk, hl, h64⟩ := hwf
+    have hr := reads_unknown env t raw rest hk hl h64
+    have hs : encodeSent env.net (Sent.unknown (B := B) (H := H) t raw) ++ rest =
+        encHeader env.net t raw.length ++ (raw ++ rest) := by simp [encodeSent, writeMessage]
+    rw [hs]
+    exact Chain.single hr (nextCodec_none idle _ (hat.1 t))
+  | headers items => exact chain_headers env attach hat rest items hwf
+  | archive t v raw att =>
+    obtain ⟨hd, hl, h64, hb, ha⟩ := hwf
+    have hr := reads_plain env t v raw (att ++ rest) hd hl h64 hb
+    have hs : encodeSent env.net (Sent.archive (H := H) t v raw att) ++ rest =
+        encHeader env.net t raw.length ++ (raw ++ (att ++ rest)) := by simp [encodeSent, writeMessage]
+    rw [hs]
+    have hn : nextCodec attach (idle : Codec H) (.body t v) = some { buffer := [], state := .attachment att.length } := by
+      simp [nextCodec, ha, expectAttachment, idle]
+    exact Chain.cons hr hn (chain_attachment env attach hat rest (att.length + 1) att (Nat.lt_succ_self _))
+
+/-- a whole conversation -/
+theorem chain_all (env : Env B H) (attach : Message B H → Option Nat) (hat : AttachOK attach) :
+    ∀ (msgs : List (Sent B H)), (∀ m ∈ msgs, SentWF env attach m) → ∀ rest : Bytes,
+      Chain env attach idle ((msgs.map (encodeSent env.net)).flatten ++ rest) (msgs.map expected).flatten idle rest := by
+  intro msgs
+  induction msgs with
+  | nil => intro _ rest; exact Chain.nil idle rest
+  | cons m ms ih =>
+    intro hwf rest
+    have h1 := chain_sent env attach hat ((ms.map (encodeSent env.net)).flatten ++ rest) m (hwf m (by simp))
+    have h2 := ih (fun x hx => hwf x (by simp [hx])) rest
+    simp only [List.map_cons, List.flatten_cons, List.append_assoc]
+    exact h1.append h2
+
+/-- **framing is faithful on the flat stream**: the reader loop delivers exactly the expected
+events, then ends with `Error::Connection` at the end of the stream, idle, nothing buffered -/
+theorem framing_faithful_flat (env : Env B H) (attach : Message B H → Option Nat) (hat : AttachOK attach)
+    (msgs : List (Sent B H)) (hwf : ∀ m ∈ msgs, SentWF env attach m) (extra : Nat) :
+    run env flatOps attach ((msgs.map expected).flatten.length + (extra + 1)) idle
+        (msgs.map (encodeSent env.net)).flatten =
+      ((msgs.map expected).flatten, .err .conn, idle, []) := by
+  have hc := chain_all env attach hat msgs hwf []
+  rw [List.append_nil] at hc
+  rw [run_chain hc (extra + 1)]
+  have he := readLoop_idle_eof env 35 ([] : Bytes) (by simp) 0 0
+  have hrun : run env flatOps attach (extra + 1) (idle : Codec H) [] = ([], .err .conn, idle, []) := by
+    simp only [run, read, READ_FUEL_eq, he]
+  rw [hrun]; simp
+
 end GV.Codec
